@@ -138,7 +138,7 @@ func deepArr(n int) *V {
 var DeepLevels = 1000
 
 // Kinds lists every mutation kind.
-var Kinds = []string{"allof-cycle-inline", "allof-cycle-direct", "self-array", "self-array-of-array", "self-object", "self-map", "self-sum", "tuple-null-item", "additional-properties-true", "enum-replacement-char", "path-template-error", "delete", "null", "retype-scalar", "retype-map", "retype-seq", "num-string", "duplicate-key", "rename-collide", "break-escape", "dangling-ref", "self-ref", "huge-number", "negative-number", "big-integer", "deep-nesting", "deep-array", "empty-map", "empty-string", "long-string",
+var Kinds = []string{"allof-cycle-inline", "allof-cycle-direct", "self-array", "self-array-of-array", "self-object", "self-map", "self-sum", "tuple-null-item", "additional-properties-true", "enum-replacement-char", "invalid-pattern", "path-template-error", "delete", "null", "retype-scalar", "retype-map", "retype-seq", "num-string", "duplicate-key", "rename-collide", "break-escape", "dangling-ref", "self-ref", "huge-number", "negative-number", "big-integer", "deep-nesting", "deep-array", "empty-map", "empty-string", "long-string",
 	// response keys outside the forms 100..599, 1XX..5XX, default
 	"response-code:0XX", "response-code:6XX", "response-code:9XX", "response-code:XXX", "response-code:2xx", "response-code:99", "response-code:1000", "response-code:2X", "response-code:٢٠٠", "response-code:-1", "response-code:2XXX", "response-code:Default"}
 
@@ -258,6 +258,21 @@ func At(root *V, p doctree.Path, kind string) *Mutant {
 			}[kind]
 			if nv, err := jsonv.Parse([]byte(txt)); err == nil {
 				ok = setAt(t, p, nv)
+			}
+		}
+	case "invalid-pattern":
+		// a pattern (or a patternProperties key) that no regular expression engine compiles
+		if orig.Kind == jsonv.String && p[len(p)-1] == "pattern" {
+			ok = setAt(t, p, jsonv.NewString("([a-z"))
+		} else if parent != nil && parent.Kind == jsonv.Object && len(parentPath) >= 1 && parentPath[len(parentPath)-1] == "patternProperties" && parent.Get("([a-z") == nil {
+			for i := range parent.Members {
+				if parent.Members[i].Name == p[len(p)-1] {
+					parent.Members[i].Name = "([a-z"
+					m.Focus = append(append(doctree.Path{}, parentPath...), "([a-z")
+					m.Names = append(m.Names, "([a-z")
+					ok = true
+					break
+				}
 			}
 		}
 	case "tuple-null-item":
